@@ -10,6 +10,8 @@ def write_scenarios(progs, path, extra=None):
                    "adv": [limbs(x) for x in p.get("adv", [])], "max_cycles": 200000}
             if p.get("mtree"):
                 rec["mtree"] = p["mtree"]
+            if p.get("chiprows"):
+                rec["chiprows"] = True
             if extra:
                 rec.update(extra)
             f.write(json.dumps(rec) + "\n")
